@@ -6,7 +6,7 @@ CONSTANTS
   Halos = {99, 0, 3}
   ModeSet = {202, 1212}
   NZs = {3}
-  LevelLists = "single"
+  LevelLists = "asc"
   Tabs = {1}
   Analytic = {FALSE, TRUE}
   Family = "linear"
